@@ -65,12 +65,24 @@ JudgeH(e, r, hp2) ==
 JudgeR(e, r) == Only({JudgeH(e, r, hp2) : hp2 \in {Refine(r.heap, r.sv, e.st)}})
 Judge(e) == Only({JudgeR(e, r) : r \in {Apply(heap, sv, e.op, LoggedCap(e))}})
 
-TInit ==
-  /\ h \in 1..Len(Traces) /\ l = 1 /\ verdict = "run"
-  /\ heap = <<>> /\ sv = [v \in 0..Traces[h].nv - 1 |-> Nil] /\ out = Ok(0)
+\* Picking the execution: a root state fans out to blocks of executions and each block to its executions,
+\* so that TLC's workers share the work (h = 0 root, h < 0 block -h, h > 0 execution h)
+Block == 64
+NBlocks == (Len(Traces) + Block - 1) \div Block
+
+TInit == h = 0 /\ l = 1 /\ verdict = "run" /\ heap = <<>> /\ sv = <<>> /\ out = Ok(0)
+
+TPick ==
+  /\ h <= 0
+  /\ IF h = 0
+       THEN /\ \E b \in 1..NBlocks : h' = -b
+            /\ UNCHANGED sv
+       ELSE \E t \in ((-h - 1) * Block + 1)..Min((-h) * Block, Len(Traces)) :
+              h' = t /\ sv' = [v \in 0..Traces[t].nv - 1 |-> Nil]
+  /\ UNCHANGED <<heap, out, l, verdict>>
 
 TStep ==
-  /\ verdict = "run" /\ l <= Len(Ev)
+  /\ h > 0 /\ verdict = "run" /\ l <= Len(Ev)
   /\ \E j \in {Judge(Ev[l])} :
        IF j.good
          THEN /\ heap' = j.heap /\ sv' = j.sv /\ out' = j.out /\ l' = l + 1
@@ -78,14 +90,15 @@ TStep ==
          ELSE verdict' = "rej" /\ UNCHANGED <<heap, sv, out, l>>
   /\ UNCHANGED h
 
-TSpec == TInit /\ [][TStep]_tvars
+TNext == TPick \/ TStep
+TSpec == TInit /\ [][TNext]_tvars
 
 Emit ==
   /\ verdict = "acc" => PrintT(ToJson([acc |-> Traces[h].id]))
   /\ verdict = "rej" =>
        \E j \in {Judge(Ev[l])} :
        PrintT(ToJson([rej |-> Traces[h].id, l |-> l, en |-> j.en, out |-> j.out, exp |-> Observed(j.heap, j.sv)]))
-  /\ (verdict = "run" /\ Len(Ev) = 0) => PrintT(ToJson([acc |-> Traces[h].id]))
+  /\ (h > 0 /\ verdict = "run" /\ Len(Ev) = 0) => PrintT(ToJson([acc |-> Traces[h].id]))
 
 \* the model's own invariants hold in every state of every validated execution
 Safety == WindowOK /\ NoGarbage /\ ZeroSizeAllEqual
